@@ -143,7 +143,4 @@ def run(ctx):
             ok = r is not None and okv and okw and salt == pinned["salts"]["signcrypt"]
             detail = "r=%s salt=%r V-ok=%s W-ok=%s" % (show(r, 3) if r is not None else None, salt, okv, okw)
         ctx.ob("E5.seal", "seal", ok, "seal returns (G*r, compute_v(pk*r, frame), compute_w(U, V, dst)*r) with one r: " + detail, where=where(f))
-    from .common import check_tag_control_dependence
-
-    check_tag_control_dependence(ctx, "E2-B", P)
     ctx.assume("Shake128 / hash_to_point / pairing of the dependencies are deterministic functions of their inputs")
